@@ -64,6 +64,7 @@ func fatal(f string, a ...any) {
 func main() {
 	cfgPath := flag.String("config", "", "")
 	out := flag.String("out", "", "")
+	repo := flag.String("repo", "", "repository root (default /repo)")
 	flag.Parse()
 	b, err := os.ReadFile(*cfgPath)
 	if err != nil {
@@ -72,6 +73,9 @@ func main() {
 	var cfg Config
 	if err := json.Unmarshal(b, &cfg); err != nil {
 		fatal("config: %v", err)
+	}
+	if *repo != "" {
+		cfg.Repo = *repo
 	}
 	if cfg.Repo == "" {
 		cfg.Repo = "/repo"
